@@ -129,17 +129,39 @@ McForms == [cls |-> {"none", "IN"}, ord |-> {"tc"}, ttl |-> {"t"}, tg |-> {FALSE
 PlainForms == [cls |-> {"IN"}, ord |-> {"tc"}, ttl |-> {"t"}, tg |-> {FALSE}, gen |-> {FALSE},
                lay |-> {"single"}, relorigin |-> FALSE]
 UOrigins == {UZO, <<"a", "example">>, <<"other">>}
-Side(pre, off, w, b, rest) == [pre |-> pre, off |-> off, w |-> w, b |-> b, rest |-> rest]
-G1 == [k |-> "gen", start |-> 1, stop |-> 3, step |-> 1, lhs |-> Side("h", 0, 0, "d", <<"rel", <<>>>>),
-       ttl |-> <<"t", 300>>, cls |-> "IN", ty |-> "A",
-       rhs |-> [pre |-> "", off |-> 0, w |-> 0, b |-> "d", rest |-> <<"none">>, pfx |-> <<10, 0, 0>>]]
-G1b == [G1 EXCEPT !.ttl = <<"none">>, !.cls = "none", !.start = 0, !.stop = 2, !.lhs = Side("h", 1, 0, "d", <<"abs", UZO>>),
-                  !.rhs = [pre |-> "", off |-> 1, w |-> 0, b |-> "d", rest |-> <<"none">>, pfx |-> <<10, 0, 0>>]]
-G1c == [G1 EXCEPT !.start = 1, !.stop = 3, !.step = 2]     \* h1, h3 only
-G2 == [k |-> "gen", start |-> 1, stop |-> 2, step |-> 1, lhs |-> Side("h", 0, 2, "d", <<"rel", <<"a">>>>),
-       ttl |-> <<"t", 5>>, cls |-> "none", ty |-> "CNAME",
-       rhs |-> [pre |-> "t", off |-> 9, w |-> 2, b |-> "x", rest |-> <<"rel", <<>>>>, pfx |-> <<>>]]
-UGenerates == {G1, G1b, G1c, G2}
+Lit(x) == <<"lit", x>>
+Dot == <<"dot">>
+Mod(off, w, b) == <<"mod", off, w, b>>
+Side(items, abs) == [items |-> items, abs |-> abs]
+NameRhs(items, abs) == [kind |-> "name", items |-> items, abs |-> abs]
+AddrRhs(pfx, off) == [kind |-> "addr", pfx |-> pfx, off |-> off]
+Gen(start, stop, step, lhs, ttl, cls, ty, rhs) ==
+    [k |-> "gen", start |-> start, stop |-> stop, step |-> step, lhs |-> lhs, ttl |-> ttl, cls |-> cls, ty |-> ty, rhs |-> rhs]
+G1 == Gen(1, 3, 1, Side(<<Lit("h"), Mod(0, 0, "d")>>, FALSE), <<"t", 300>>, "IN", "A", AddrRhs(<<10, 0, 0>>, 0))
+G1b == Gen(0, 2, 1, Side(<<Lit("h"), Mod(1, 0, "d"), Dot, Lit("example")>>, TRUE), <<"none">>, "none", "A", AddrRhs(<<10, 0, 0>>, 1))
+G1c == [G1 EXCEPT !.step = 2]     \* h1, h3 only
+G2 == Gen(1, 2, 1, Side(<<Lit("h"), Mod(0, 2, "d"), Dot, Lit("a")>>, FALSE), <<"t", 5>>, "none", "CNAME",
+          NameRhs(<<Lit("t"), Mod(9, 2, "x")>>, FALSE))
+\* nibble bases, widths 0..4, iterator values with 1-3 hex digits
+GN0 == Gen(10, 11, 1, Side(<<Lit("h"), Mod(0, 0, "n")>>, FALSE), <<"t", 5>>, "IN", "A", AddrRhs(<<10, 0, 1>>, 0))          \* ha hb
+GN1 == Gen(26, 26, 1, Side(<<Mod(0, 1, "n"), Dot, Lit("a")>>, FALSE), <<"t", 5>>, "IN", "A", AddrRhs(<<10, 0, 1>>, 0))     \* a.1.a
+GN2 == Gen(10, 10, 1, Side(<<Mod(0, 2, "n"), Lit("x")>>, FALSE), <<"t", 5>>, "IN", "A", AddrRhs(<<10, 0, 1>>, 0))           \* a.x
+GN3 == Gen(300, 301, 1, Side(<<Mod(0, 3, "n")>>, FALSE), <<"t", 5>>, "IN", "A", AddrRhs(<<10, 0, 1>>, -200))                \* c.2.1 d.2.1
+GN4 == Gen(10, 10, 1, Side(<<Mod(0, 4, "n"), Lit("x")>>, FALSE), <<"t", 5>>, "IN", "A", AddrRhs(<<10, 0, 1>>, 0))           \* a.0.x
+GN5 == Gen(299, 300, 1, Side(<<Lit("u"), Mod(1, 2, "N"), Dot, Lit("a")>>, FALSE), <<"t", 5>>, "none", "CNAME",
+           NameRhs(<<Mod(0, 0, "n"), Dot, Lit("example")>>, TRUE))                                                          \* uC.2.1.a uD.2.1.a -> b.2.1.example. / c.2.1.example.
+GN6 == Gen(10, 10, 1, Side(<<Mod(0, 4, "n"), Lit("example"), Dot>>, FALSE), <<"t", 5>>, "IN", "A", AddrRhs(<<10, 0, 1>>, 0)) \* a.0.example. (text ends in a dot)
+\* several $ on a side, each with its own modifiers
+GM1 == Gen(1, 2, 1, Side(<<Lit("h"), Mod(0, 0, "d"), Lit("x"), Mod(1, 2, "d")>>, FALSE), <<"t", 5>>, "IN", "CNAME",
+           NameRhs(<<Lit("t"), Mod(0, 2, "x"), Lit("-"), Mod(0, 0, "d")>>, FALSE))                                          \* h1x02 -> t01-1
+GM2 == Gen(9, 10, 1, Side(<<Mod(0, 0, "d"), Lit("-"), Mod(0, 3, "d"), Lit("-"), Mod(1, 0, "x"), Dot, Lit("a")>>, FALSE),
+           <<"t", 5>>, "IN", "NS", NameRhs(<<Mod(0, 0, "x"), Dot, Mod(2, 2, "d"), Dot, Lit("other")>>, TRUE))               \* 9-009-a.a -> 9.11.other.
+GNew == {GN0, GN1, GN2, GN3, GN4, GN5, GN6, GM1, GM2}
+\* the zone a $GENERATE line expands to under the zone origin (plus an apex NS)
+GenZone(g) == ZoneOf({<<RelPart(GenName(g.lhs, i, UZO), UZO), g.ty, g.ttl[2], GenRd(g, i, UZO)>> : i \in GenRange(g)}
+                     \cup {<< <<>>, "NS", 300, NS1 >>})
+GenZones == {GenZone(g) : g \in GNew}
+UGenerates == {G1, G1b, G1c, G2} \cup GNew
 RRLine(owner, ttl, ty, names, data) ==
     [k |-> "rr", owner |-> owner, ttl |-> ttl, cls |-> "IN", ord |-> "tc", ty |-> ty, tg |-> FALSE, gen |-> FALSE,
      names |-> names, data |-> data, lay |-> "single"]
